@@ -17,9 +17,13 @@ EXPLANATION = (
     "dominating comparison with the length of the same buffer, by construction, or by the type invariant offset <= "
     "buffer.len() of TupleKeyParser / TupleKeyIterator, which is proved inductively (every write of offset stores a value "
     "proved in range: +1 after a successful get()/comparison, or checked_add(..).filter(<= len)); unproved sites are "
-    "excepted one by one with the reason.  TABLE, const eval, panic audit and array-bounds dataflow over REACH.")
-NOT_DECIDED = ("order preservation, prefix contiguity and round-trip for values: relations between two inputs at width and escape "
-               "boundaries; nothing in the code shape decides them")
+    "excepted one by one with the reason; (C16.4) the per-byte map that reverse_encoding applies to descending elements is "
+    "read from MIR and evaluated on all 256 bytes: it is an involution, preserves the continuation bit, reverses the order "
+    "of bytes whose data bits differ, and -- the clause that FAILS on this tree, known finding F14 -- orders a terminator "
+    "byte after the continuation byte with the same data bits.  TABLE, const eval, finite-domain evaluation, panic audit and "
+    "array-bounds dataflow over REACH.")
+NOT_DECIDED = ("order preservation, prefix contiguity and round-trip for values in general: relations between two inputs at width and "
+               "escape boundaries (C16.4 decides one necessary per-byte condition of descending order by exhaustive evaluation)")
 ASSUMPTIONS = ["overflow Assert terminators are out of scope; the excepted slice sites are safe by the arguments in the exception table"]
 
 
@@ -27,6 +31,7 @@ def rules(ctx):
     c161(ctx)
     c162(ctx)
     c163(ctx)
+    c164(ctx)
 
 
 ENC = re.compile(r"::(append_to|extend|extend_with_key|extend_field_number|field_number|append|builder|build|finish|tuple_key|unit|bytes|string|"
@@ -183,3 +188,112 @@ def c163(ctx):
                     if a.get("k") == "const" and a["c"].get("named"):
                         named.add(a["c"]["named"].rsplit("::", 1)[-1])
             ctx.ok(R, f, "%s uses %s" % (name, sorted(named)))
+
+
+# ------------------------------------------------------------------------------------------------
+# C16.4 the byte map applied to descending elements, evaluated over all 256 bytes
+
+def byte_map(f):
+    """The pure u8 -> u8 function a `for b in bytes.iter_mut() { *b = E(*b) }` loop applies, read from MIR and
+    evaluated on every byte: returns (table[256], point of the store) or (None, reason)."""
+    defs = P.defs(f)
+    store = None
+    for b in f.blocks:
+        for i, st in enumerate(b.st):
+            if st["s"] == "=" and st["lhs"]["p"] == ["*"] and re.match(r"^&('\w+ )?mut u8$", f.locals[st["lhs"]["l"]]):
+                if store is not None:
+                    return None, "more than one store through a &mut u8"
+                store = ((b.idx, i), st)
+    if store is None:
+        return None, "no `*b = ..` store through a &mut u8 item"
+    item = store[1]["lhs"]["l"]
+
+    class Unknown(Exception):
+        pass
+
+    def ev_op(o, x, depth=0):
+        if o.get("k") == "const":
+            v = o["c"].get("v")
+            if isinstance(v, int):
+                return v & 0xff
+            raise Unknown("constant %r" % (v,))
+        pl = o["pl"]
+        if pl["l"] == item and pl["p"] == ["*"]:
+            return x
+        if pl["p"]:
+            raise Unknown("projection")
+        ds = [(pt, k, p_) for (pt, k, p_) in defs.of(pl["l"]) if k in ("assign", "call")]
+        if len(ds) != 1 or ds[0][1] != "assign" or depth > 30:
+            raise Unknown("local _%d is not a single assignment" % pl["l"])
+        return ev_rv(ds[0][2]["rv"], x, depth + 1)
+
+    def ev_rv(rv, x, depth=0):
+        r = rv["r"]
+        if r == "use":
+            return ev_op(rv["a"], x, depth)
+        if r == "un":
+            a = ev_op(rv["a"], x, depth)
+            if rv["op"] == "Not":
+                return (~a) & 0xff
+            if rv["op"] == "Neg":
+                return (-a) & 0xff
+            raise Unknown(rv["op"])
+        if r == "bin":
+            a, b_ = ev_op(rv["a"], x, depth), ev_op(rv["b"], x, depth)
+            op = rv["op"].replace("Unchecked", "")
+            if op == "BitAnd":
+                return a & b_
+            if op == "BitOr":
+                return a | b_
+            if op == "BitXor":
+                return a ^ b_
+            if op == "Add":
+                return (a + b_) & 0xff
+            if op == "Sub":
+                return (a - b_) & 0xff
+            if op == "Shl":
+                return (a << b_) & 0xff
+            if op == "Shr":
+                return a >> b_
+            raise Unknown(op)
+        raise Unknown(r)
+
+    try:
+        return [ev_rv(store[1]["rv"], x) for x in range(256)], store[0]
+    except Unknown as e:
+        return None, "cannot evaluate the byte map (%s)" % e
+
+
+def c164(ctx):
+    R = "C16.4"
+    ctx.declare(R, "the byte map applied to descending elements reverses the order of encodings, including encodings one of which ends "
+                   "where the other continues")
+    f = ctx.fn(R, "tuple_key::reverse_encoding")
+    if not f:
+        return
+    tab, where = byte_map(f)
+    if tab is None:
+        ctx.violate(R, f, "byte-map", "reverse_encoding is not a readable per-byte map: %s" % where)
+        return
+    # who applies it: only extend_with_key on the element's own bytes under Direction::Reverse (and the parser's inverse)
+    ctx.ok(R, f, "byte map read from MIR and evaluated on all 256 bytes (f(0x00)=%#04x, f(0x61)=%#04x, f(0x80)=%#04x)" % (tab[0], tab[0x61], tab[0x80]), [where])
+    inv = all(tab[tab[x]] == x for x in range(256))
+    ctx.check(R, f, "involution", inv, "the map is its own inverse (parse_from applies it again to decode)", "the descending byte map is not an involution: decoding does not restore the element", pt=where)
+    keep = all((tab[x] & 1) == (x & 1) for x in range(256))
+    ctx.check(R, f, "keeps-continuation-bit", keep, "bit 0 (continuation / terminator marker) is preserved, so TupleKeyIterator finds the same element boundaries",
+              "the descending byte map changes the continuation bit: element boundaries are lost", pt=where)
+    bad = [(a, b) for a in range(0, 256, 2) for b in range(0, 256, 2) if a < b and not (tab[a] >> 1) > (tab[b] >> 1)]
+    ctx.check(R, f, "data-bits-reversed", not bad, "for bytes with different data bits the order is reversed (a < b => f(a) > f(b), 8128 pairs)",
+              "data bits are not order-reversed, e.g. f(%#04x) vs f(%#04x)" % (bad[0] if bad else (0, 0)), pt=where)
+    # variable-length elements: x is a proper prefix of y and y continues with zero data bits up to the end of the shared byte:
+    # enc(x) has d|0 (terminator) where enc(y) has d|1.  Descending order needs f(d|0) > f(d|1).
+    worse = [d for d in range(0, 256, 2) if not tab[d] > tab[d | 1]]
+    ctx.check(R, f, "prefix-order", not worse,
+              "a terminator byte sorts after the continuation byte with the same data bits once reversed (prefixes sort last when descending)",
+              "descending variable-length elements that are prefixes of one another sort ASCENDING: the byte where the shorter value ends "
+              "(d|0) and the longer one continues (d|1) keeps its order under the map for all %d values of d (f(0x80)=%#04x < f(0x81)=%#04x); "
+              "e.g. \"a\" vs \"a\\0\" and \"abcdefg\" vs \"abcdefgh\" under Direction::Reverse" % (len(worse), tab[0x80], tab[0x81]), pt=where)
+    # the map is applied to exactly the element's bytes under Direction::Reverse
+    cs = K.callers_of(ctx, r"^tuple_key::reverse_encoding$", crates=("tuple_key",))
+    ctx.check(R, "tuple_key", "appliers", len(cs) >= 2, "reverse_encoding is applied by the encoder and the parser (%s)" % sorted(cs),
+              "reverse_encoding has %d callers" % len(cs))
